@@ -685,9 +685,15 @@ impl Ctx16 {
         expected.push("model.aeon".to_string());
         expected.push("formulae.txt".to_string());
         expected.sort();
-        let got: Vec<String> = entries.keys().cloned().collect();
+        // entries that the loader ignores (anything that is not a `.bdd`) may be present in addition:
+        // the statement asks for one entry per result, the model and the formula list, not for nothing else
+        let all: Vec<String> = entries.keys().cloned().collect();
+        let got: Vec<String> = all.iter().filter(|n| n.ends_with(".bdd") || expected.contains(*n)).cloned().collect();
+        if got.len() != all.len() {
+            rep.probe("archive_has_additional_non_result_entries", 1);
+        }
         if got != expected {
-            rep.violate("archive_entries", format!("{how}: entries {got:?}, expected {expected:?}"));
+            rep.violate("archive_entries", format!("{how}: entries {all:?}, expected {expected:?}"));
             return;
         }
         let ftxt = String::from_utf8_lossy(&entries["formulae.txt"]).to_string();
